@@ -13,7 +13,15 @@ import (
 	"time"
 )
 
-const RepoDir = "/repo"
+// RepoDir is the repository under analysis (/repo unless VERIF_REPO is set as a development aid).
+var RepoDir = repoDir()
+
+func repoDir() string {
+	if d := os.Getenv("VERIF_REPO"); d != "" {
+		return d
+	}
+	return "/repo"
+}
 
 // GoEnv returns the environment needed for offline go commands.
 func GoEnv(extra ...string) []string {
